@@ -1,4 +1,5 @@
 pub mod filtersync;
+pub mod hostile;
 pub mod peersync;
 pub mod sampling;
 
@@ -9,6 +10,7 @@ pub fn run(driver: &str, kv: &HashMap<String, String>) -> i32 {
         "peersync" => peersync::run(kv),
         "filtersync" => filtersync::run(kv),
         "sampling" => sampling::run(kv),
+        "hostile" => hostile::run(kv),
         "mine-genesis" => mine_genesis(),
         "selftest-forged" => selftest_forged(),
         _ => {
